@@ -441,6 +441,13 @@ def correspond(run, corr):
         impl = run_impl(run, flavour, lines)
         model = vf.run_driver(lines)
         for l, a, b in zip(lines, impl, model):
+            if a != b and b == "CRASH" and a != "CRASH":
+                # the model marks the unchanged code's behaviour as undefined here (queue index beyond the DLCI table:
+                # outside the property's "DLCIs with a registered handler"); a guard that defines it is not a broken tie
+                corr.outside += 1
+                if len(corr.outside_samples) < 5:
+                    corr.outside_samples.append({"request": l[:300], "impl": a[:200], "model": b})
+                continue
             if a != b and len(corr.disagreements) < 50:
                 i = next((k for k in range(min(len(a), len(b))) if a[k] != b[k]), min(len(a), len(b)))
                 corr.disagreements.append({"request": l[:1500], "first_difference_at": i,
